@@ -204,6 +204,9 @@ class Iterator:
 # ---------------------------------------------------------------------------------------
 
 
+_LUT_CACHE = {}
+
+
 class Obligation:
     def __init__(self, label):
         self.label = label
@@ -235,6 +238,7 @@ class Engine:
         self.axioms = []
         self.current_label = None
         self.contract_uses = {}
+        self._aff_mark = 0
 
     # -------------------------------------------------------------- path exploration
     def explore(self, run_once, max_paths=5000):
@@ -363,6 +367,11 @@ class Engine:
         if self.merge_depth:
             raise MergeAbort()
         status, model, secs, backend = self.ps.prove(c, self.timeout_ms)
+        if backend == "trivial":
+            # decided without a solver call: by GF(2)-affine normal forms (bits.py) when the
+            # comparison went through the bit domain, else by term identity after simplification
+            backend = "gf2" if B.STATS["aff_eq"] > self._aff_mark else "syntactic"
+        self._aff_mark = B.STATS["aff_eq"]
         rec = {"label": label, "status": status, "seconds": round(secs, 4), "backend": backend}
         if status == "refuted":
             rec["model"] = self.extract_inputs(model)
@@ -479,8 +488,9 @@ class Engine:
             b_int = isinstance(b, (int, SInt))
             if a_int and b_int:
                 ca, cb = int_cells(a), int_cells(b)
-                if ca is not None and cb is not None and (isinstance(a, SInt) and a.cells is not None or
-                                                          isinstance(b, SInt) and b.cells is not None):
+                a_bits = isinstance(a, int) and a >= 0 or isinstance(a, SInt) and a.cells is not None
+                b_bits = isinstance(b, int) and b >= 0 or isinstance(b, SInt) and b.cells is not None
+                if ca is not None and cb is not None and a_bits and b_bits:
                     w = max(len(ca), len(cb))
                     ca = [0] * (w - len(ca)) + ca
                     cb = [0] * (w - len(cb)) + cb
@@ -512,6 +522,13 @@ class Engine:
             if ca is not None and cb is not None:
                 cb_ = B.cond_to_bit(c)
                 return sbin_or_str([B.bite(cb_, V.cell_bit(x), V.cell_bit(y)) for x, y in zip(ca, cb)])
+        if self.is_strlike(a) and self.is_strlike(b) and not isinstance(a, SStr) and not isinstance(b, SStr):
+            try:
+                la_, lb_ = self.seq_len(a), self.seq_len(b)
+            except Unsupported:
+                la_, lb_ = -1, -2
+            if la_ == lb_ == 1:
+                return self.vmerge_index(c, a, b)
         if isinstance(a, tuple) and isinstance(b, tuple) and len(a) == len(b):
             return tuple(self.vmerge(c, x, y) for x, y in zip(a, b))
         if isinstance(a, (FuncValue, Builtin, ClassValue, ModuleValue, StubModule)) and a is b:
@@ -759,6 +776,21 @@ class Engine:
                 if isinstance(x, SHex) and isinstance(y, SHex):
                     conds.append(self.str_eq(x, y))
                     continue
+                if isinstance(x, str) and isinstance(y, SChr) and y.lut is not None:
+                    x, y = y, x
+                if isinstance(x, SChr) and x.lut is not None and isinstance(y, str):
+                    t, lo_, codes = x.lut
+                    hits = [lo_ + k for k, cd in enumerate(codes) if cd == ord(y)]
+                    if not hits:
+                        return False
+                    if len(hits) == len(codes):
+                        continue
+                    miss = [lo_ + k for k, cd in enumerate(codes) if cd != ord(y)]
+                    if len(hits) <= len(miss):
+                        conds.append(c_or(*[t == k for k in hits]))
+                    else:
+                        conds.append(c_and(*[t != k for k in miss]))
+                    continue
                 cx, cy = self.char_code(x), self.char_code(y)
                 if isinstance(cx, int) and isinstance(cy, int):
                     if cx != cy:
@@ -785,6 +817,56 @@ class Engine:
                     conds.append(self.str_eq(x, y))
             if ok:
                 return c_and(*conds)
+        # literal prefixes / suffixes that disagree decide inequality without looking at the
+        # variable-length parts
+        def lead(ps):
+            out = ""
+            for p_ in ps:
+                if isinstance(p_, str):
+                    out += p_
+                else:
+                    break
+            return out
+
+        def trail(ps):
+            out = ""
+            for p_ in reversed(ps):
+                if isinstance(p_, str):
+                    out = p_ + out
+                else:
+                    break
+            return out
+        la_, lb_ = lead(pa), lead(pb)
+        k_ = min(len(la_), len(lb_))
+        if la_[:k_] != lb_[:k_]:
+            return False
+        ta_, tb_ = trail(pa), trail(pb)
+        k_ = min(len(ta_), len(tb_))
+        if k_ and ta_[len(ta_) - k_:] != tb_[len(tb_) - k_:]:
+            return False
+        # a decimal integer never contains a non-digit: a literal on one side that must align
+        # with str(int) on the other side (same literal prefix consumed) decides inequality
+        if len(pa) >= 1 and len(pb) >= 1:
+            ra, rb = mkstr(pa), mkstr(pb)
+            if isinstance(ra, str) and not isinstance(rb, str):
+                ra, rb, pa, pb = rb, ra, pb, pa
+            if isinstance(rb, str) and isinstance(ra, SStr):
+                # ra = lit + str(int) [+ lit]: rb must be lit + digits(+/-) + lit
+                pieces = ra.pieces
+                if len(pieces) in (2, 3) and isinstance(pieces[0], str) and isinstance(pieces[1], StrOfInt) and \
+                   (len(pieces) == 2 or isinstance(pieces[2], str)):
+                    pre = pieces[0]
+                    suf = pieces[2] if len(pieces) == 3 else ""
+                    if not (rb.startswith(pre) and rb.endswith(suf) and len(rb) >= len(pre) + len(suf)):
+                        return False
+                    mid = rb[len(pre): len(rb) - len(suf)]
+                    try:
+                        k = int(mid)
+                    except ValueError:
+                        return False
+                    if str(k) != mid:
+                        return False
+                    return self.veq(pieces[1].val, k)
         # a single StrOfInt with small range against a concrete string etc.: expand
         def expand(ps):
             for i, p in enumerate(ps):
@@ -968,6 +1050,8 @@ class Engine:
     def seq_len(self, obj):
         if isinstance(obj, (str, SBin, SHex, tuple, list)):
             return len(obj)
+        if isinstance(obj, SChr):
+            return 1
         if isinstance(obj, SList):
             return len(obj.items)
         if isinstance(obj, SDict):
@@ -1077,6 +1161,17 @@ class Engine:
             else:
                 lo = 0
         items = [self.getitem(obj, k) for k in range(lo, hi + 1)]
+        if all(isinstance(x, str) and len(x) == 1 for x in items) and len(items) > 1:
+            codes = [ord(x) for x in items]
+            key = (tuple(codes), lo, idx.term.get_id())
+            hit = _LUT_CACHE.get(key)
+            if hit is None:
+                e = z3.IntVal(codes[-1])
+                for k in range(len(codes) - 2, -1, -1):
+                    e = z3.If(idx.term == lo + k, z3.IntVal(codes[k]), e)
+                hit = (e, idx.term)       # keep the index term alive: its ast id is the key
+                _LUT_CACHE[key] = hit
+            return SChr(hit[0], (idx.term, lo, codes))
         res = items[-1]
         for k in range(hi - 1, lo - 1, -1):
             res = self.vmerge_index(idx.term == k, items[k - lo], res)
@@ -1285,6 +1380,26 @@ class Engine:
             raise Unsupported("comparison of %r and %r" % (type(a), type(b)))
         if is_concrete_num(a) and is_concrete_num(b):
             return {ast.Lt: a < b, ast.LtE: a <= b, ast.Gt: a > b, ast.GtE: a >= b}[type(op)]
+        # zero / non-zero tests of a bit-view integer stay in the bit domain
+        if isinstance(b, int) and not isinstance(b, bool) and isinstance(a, SInt) and a.cells is not None \
+           and all(not isinstance(x, IRef) for x in a.cells):
+            nz = None
+            if (isinstance(op, ast.Gt) and b == 0) or (isinstance(op, ast.GtE) and b == 1):
+                nz = True
+            elif (isinstance(op, ast.Lt) and b == 1) or (isinstance(op, ast.LtE) and b == 0):
+                nz = False
+            if nz is not None:
+                conds = []
+                for x in a.cells:
+                    xb = B.norm(x)
+                    if isinstance(xb, int):
+                        if xb:
+                            conds = [True]
+                            break
+                        continue
+                    conds.append(B.to_z3(xb))
+                r = c_or(*conds)
+                return r if nz else c_not(r)
         # quick decisions from known bounds
         la, ha = bounds(a)
         lb, hb = bounds(b)
@@ -1789,9 +1904,9 @@ class Engine:
         if isinstance(c, bool):
             self.exec_block(node.body if c else node.orelse, env)
             return
-        c = z3.simplify(c)
-        if z3.is_true(c) or z3.is_false(c):
-            self.exec_block(node.body if z3.is_true(c) else node.orelse, env)
+        cs = z3.simplify(c)
+        if z3.is_true(cs) or z3.is_false(cs):
+            self.exec_block(node.body if z3.is_true(cs) else node.orelse, env)
             return
         if not has_jump(node):
             snap = self.snapshot()
